@@ -256,11 +256,22 @@ def oracle(case, tr: C.Trace, ref_eff: list | None = None) -> tuple[list[Violati
                     twin = [l for l in rec["lines"] if l["id"] != it.id and ls and l["name"] == ls[0]["name"]
                             and (l["end"] is not None or l["cancelled"] or l["failed"])
                             and not (insts.get(l["id"]) and insts[l["id"]].exec)]
-                    viol("runlog:final-state-booked-on-other-instance" if twin else
-                         "runlog:finalized-instance-shown-%s" % ("running" if ls else "missing"),
+                    lives = sum(1 for p, _ in it.init if p < stop_pos)
+                    if lives > 1:
+                        # the instance id was cancelled + finalized and created again by its own stale request (by-name
+                        # cancellation in CommandManager._cancel_command: the Cancelled state of the first life is booked on the
+                        # request that was named, which never ran): a consequence of restarted instances, not of the tracking
+                        sig_rl = "runlog:restarted-instance-shown-%s" % ("running" if ls else "missing")
+                    elif twin:
+                        sig_rl = "runlog:final-state-booked-on-other-instance"
+                    else:
+                        sig_rl = "runlog:finalized-instance-shown-%s" % ("running" if ls else "missing")
+                    viol(sig_rl,
                          "tick %d (%s): %s (..%s, args %r) was finalized in tick %d but the run-stopped run log %s"
                          % (s, kind, it.name, it.id[-4:], it.args, it.fin[0][1],
-                            ("shows %r with end=None cancelled=False failed=False" % ls[0]["name"]) if ls else "has no line for it"))
+                            ("shows %r with end=None cancelled=False failed=False" % ls[0]["name"]) if ls else "has no line for it")
+                         + ((" (the instance id had %d lives: re-initialised after finalize in ticks %r)"
+                             % (lives, [t2 for _p, t2 in it.init][1:])) if lives > 1 else ""))
                 elif not ls:
                     symptom(cause(it.id), "runlog-missing", "tick %d: %s (..%s, args %r) executed in the run but the "
                             "run-stopped run log has no line for it" % (s, it.name, it.id[-4:], it.args))
